@@ -21,6 +21,9 @@ type ERow struct {
 	Secret string
 	Plain  string `parquet:",dict"`
 	L      []int32
+	// Z: a dictionary-encoded column that never holds a value (its dictionary
+	// page has no entry: an encrypted module with an empty plaintext)
+	Z *string `parquet:",dict"`
 }
 
 func c18Rows(n int, tag string) []ERow {
@@ -34,7 +37,13 @@ func c18Rows(n int, tag string) []ERow {
 	return rows
 }
 
-func erowString(r ERow) string { return fmt.Sprintf("%d|%s|%s|%v", r.ID, r.Secret, r.Plain, r.L) }
+func erowString(r ERow) string {
+	z := "nil"
+	if r.Z != nil {
+		z = *r.Z
+	}
+	return fmt.Sprintf("%d|%s|%s|%v|%s", r.ID, r.Secret, r.Plain, r.L, z)
+}
 
 type c18Keys struct {
 	footer []byte
@@ -199,7 +208,10 @@ var c18Modes = []string{"roundtrip+seek", "leak", "keys", "tamper-bytes", "tampe
 	// the writer is reused through Reset: the second file must read back too
 	"roundtrip-after-reset",
 	// the rows go through BeginRowGroup / Commit (row groups that can be filled in parallel)
-	"begin-row-group"}
+	"begin-row-group",
+	// two row groups begun together, filled, then committed in the order they were
+	// begun or in the other one (which the writer may refuse)
+	"begin-row-groups-together"}
 
 func c18Run(x *engine.X) {
 	cfgs := c18Configs()
@@ -276,6 +288,49 @@ func c18Run(x *engine.X) {
 		if err != nil || !equalStrings(g, exp) {
 			x.Failf("roundtrip", bshape, "rows written through BeginRowGroup/Commit do not read back with the right keys: err=%v rows=%d/%d", err, len(g), len(exp))
 			return
+		}
+	case "begin-row-groups-together":
+		for _, order := range [][]int{{0, 1}, {1, 0}} {
+			bshape := fmt.Sprintf("mode=begin-row-groups-together;commit-order=%v;config=%s", order, cfg.desc)
+			var buf bytes.Buffer
+			w := parquet.NewGenericWriter[ERow](&buf, append(append([]parquet.WriterOption{}, cfg.opts...), parquet.WithEncryption(cfg.encryption("fileid-A")))...)
+			schema := parquet.SchemaOf(ERow{})
+			rgws := []*parquet.ConcurrentRowGroupWriter{w.BeginRowGroup(), w.BeginRowGroup()}
+			parts := [][]ERow{rows[:5], rows[5:10]} // the first (narrow) column has flushed no page yet, the others have
+			for k, rgw := range rgws {
+				for i := range parts[k] {
+					if _, err := rgw.WriteRows([]parquet.Row{schema.Deconstruct(nil, &parts[k][i])}); err != nil {
+						x.Failf("write-error", bshape, "WriteRows: %v", err)
+						return
+					}
+				}
+			}
+			refused := false
+			var want []string
+			for _, k := range order {
+				if _, err := rgws[k].Commit(); err != nil {
+					refused = true // the writer may insist on the order the row groups were begun in
+					break
+				}
+				for _, r := range parts[k] {
+					want = append(want, erowString(r))
+				}
+			}
+			if refused {
+				continue
+			}
+			if err := w.Close(); err != nil {
+				continue // refusing at Close is a refusal too
+			}
+			var wantRows []ERow
+			for _, k := range order {
+				wantRows = append(wantRows, parts[k]...)
+			}
+			g, err := c18ReadAll(buf.Bytes(), cfg.keys(), cfg.bloom, wantRows)
+			if err != nil || !equalStrings(g, want) {
+				x.Failf("roundtrip", bshape, "two row groups begun together and committed in order %v: every call succeeded but the file does not read back with the right keys: err=%v rows=%d/%d", order, err, len(g), len(want))
+				return
+			}
 		}
 	case "roundtrip-after-reset":
 		var buf bytes.Buffer
@@ -597,7 +652,7 @@ func init() {
 	Register(&engine.Prop{
 		ID:    "C18",
 		Level: "fault_enumeration",
-		Rule: "12 configurations ({encrypted footer, signed plaintext footer} x {footer key only, per-column key} x {v2 small pages; v1+snappy+AAD prefix; bloom filters + 2 row groups}) x 6 modes: round trip + seek histories (read 0/1/5/20 rows, SeekToRow(every 7th row), read) on a 150-row many-page file; leak scan of the raw bytes for every value token and token prefix; wrong / missing footer and column keys; EVERY byte of every module, of the footer and of its signature flipped; every ordered pair of equal-length modules transplanted; modules transplanted from a twin file with another file identifier and from a file written with the same EncryptionConfig object, modules truncated, footer signature stripped / zeroed; " +
+		Rule: "12 configurations ({encrypted footer, signed plaintext footer} x {footer key only, per-column key} x {v2 small pages; v1+snappy+AAD prefix; bloom filters + 2 row groups}) x 10 modes: round trip + seek histories (read 0/1/5/20 rows, SeekToRow(every 7th row), read) on a 150-row many-page file; leak scan of the raw bytes for every value token and token prefix; wrong / missing footer and column keys; EVERY byte of every module, of the footer and of its signature flipped; every ordered pair of equal-length modules transplanted; modules transplanted from a twin file with another file identifier and from a file written with the same EncryptionConfig object, modules truncated, footer signature stripped / zeroed; " +
 			"oracle: a tampered or wrongly keyed file never opens and reads without error, rows returned before an error are a prefix of the original; evaluation = one tampered file or seek history",
 		Assumptions: []string{"AES-GCM nonces are random: no oracle depends on ciphertext bytes; module boundaries are found by walking the 4-byte length prefixes from offset 4 to the footer"},
 		// 8 workers: the library allocates what a tampered module length prefix
